@@ -26,6 +26,8 @@ type tapeInfo struct {
 	names    map[int64]string // record offset -> decrypted entry name (suffix stripped)
 	callEnds []int            // tape length after Initialize and after every call
 	writes   []int64          // tape length after every single drive write
+	liveIdx  []string         // copies of the LIVE index file (built by the calls themselves) at call boundaries with no open handle; last = final
+	liveAt   []int            // call index of each copy
 }
 
 // produceTape runs the case's history fault-free and collects the tape.
@@ -40,14 +42,27 @@ func produceTape(x *SeqCtx) (*tapeInfo, *Violation) {
 		return int(fi.Size())
 	}
 	ti.callEnds = append(ti.callEnds, sz())
+	snap := func(i int) {
+		if x.Case.Param("liveidx", 0) == 0 {
+			return
+		}
+		p := x.W.NewIndexPath()
+		if copyFile(x.W.Index, p) == nil {
+			ti.liveIdx, ti.liveAt = append(ti.liveIdx, p), append(ti.liveAt, i)
+		}
+	}
 	if v := runOps(x, func(i int, op Op, res Res) *Violation {
 		ti.callEnds = append(ti.callEnds, sz())
+		if len(x.Ex.H) == 0 && i < len(x.Case.Ops)-1 && isMutating(op.K) && res.Class == "ok" {
+			snap(i)
+		}
 		return nil
 	}); v != nil {
 		return nil, v
 	}
 	x.Ex.CloseAll()
 	ti.callEnds = append(ti.callEnds, sz())
+	snap(len(x.Case.Ops))
 	var err error
 	ti.tape, err = os.ReadFile(x.W.Drive)
 	if err != nil {
@@ -81,6 +96,11 @@ func init() {
 		Gen: func(r *rand.Rand, tier string, relax Relax) *Case {
 			c := &Case{Cfg: GenConfig(r, 0.5), P: map[string]int64{"enumerate": 1}, S: map[string]string{}}
 			ops, u := GenHistory(r, GenOpts{MaxOps: 8, Handles: r.Float64() < 0.3, RS: c.Cfg.RecordSize})
+			if r.Float64() < 0.2 {
+				// direct Operations.Archive calls: multi-member batches (one trailer for several records)
+				// and empty batches (a call that writes no record)
+				ops = insertArchives(r, ops, false)
+			}
 			c.Ops, c.S["style"] = ops, u.Style
 			return c
 		},
@@ -90,9 +110,9 @@ func init() {
 	// ------------------------------------------------------------ C07
 	Register(&Check{
 		ID: "C07", Level: "fault_enumeration", Tech: "deterministic simulation: duplicate-delivery of the log - replay of the whole tape into every prefix index (restart at each call boundary), twice",
-		Rule:      "per generated history (moves, delete-then-recreate, renames onto used names) and for EVERY call boundary and every record boundary j: index I_j = rebuild of the tape prefix at j; the whole tape is then re-indexed into I_j without wiping, twice; each pass must return nil and the observed tree+contents after pass 1, after pass 2 and of a from-scratch rebuild must be identical; an evaluation = one (history, j); non-trivial = the prefix index differs from the final state; distinct by (history, j)",
+		Rule:      "per generated history (moves, delete-then-recreate, renames onto used names) and for EVERY call boundary and every record boundary j: index I_j = rebuild of the tape prefix at j; the whole tape is then re-indexed into I_j without wiping, twice; the same is done with copies of the LIVE index file as the calls themselves built it (at the end and at earlier call boundaries); each pass must return nil and the observed tree+contents after pass 1, after pass 2 and of a from-scratch rebuild must be identical; an evaluation = one (history, j) or one (history, live copy); non-trivial = the prefix index differs from the final state; distinct by (history, j)",
 		QuickRuns: 1500, QuickSecs: 60, ThoroughRuns: 15000, ThoroughSecs: 1500,
-		Assumptions: []string{"prefix indexes are produced by rebuilding the tape cut at a call boundary"},
+		Assumptions: []string{"prefix indexes are produced by rebuilding the tape cut at a call boundary, plus copies of the live index file (built by the calls themselves) taken at call boundaries with no open handle and at the end"},
 		Gen: func(r *rand.Rand, tier string, relax Relax) *Case {
 			c := &Case{Cfg: GenConfig(r, 0.6), P: map[string]int64{}, S: map[string]string{}}
 			ops, u := GenHistory(r, GenOpts{MaxOps: 10, Handles: r.Float64() < 0.3, RS: c.Cfg.RecordSize, ValidBias: 0.85})
@@ -137,6 +157,7 @@ func init() {
 				ops = append(append(append([]Op{}, ops[:at]...), t...), ops[at:]...)
 			}
 			c.Ops, c.S["style"] = ops, u.Style
+			c.P["liveidx"] = 1
 			return c
 		},
 		Eval: evalC07,
@@ -441,6 +462,49 @@ func evalC07(t *testing.T, c *Case, st *Stats, relax Relax) *Violation {
 			}
 			if len(DiffTrees("a", "b", pt, scratch, nil)) > 0 {
 				st.Nontrivial(fmt.Sprintf("%s|%s|%d", opKinds(c.Ops), c.Cfg, end))
+			}
+		}
+		// the index the calls themselves built (j=|h| "is the live index itself"), and the live index as
+		// it stood at earlier call boundaries: the whole tape replayed into a copy of it, twice
+		for k, lp := range ti.liveIdx {
+			at := ti.liveAt[k]
+			if only := c.Param("live", -1); only >= 0 && int(only) != at {
+				os.Remove(lp)
+				continue
+			}
+			if c.Param("j", -1) >= 0 {
+				os.Remove(lp)
+				continue
+			}
+			mk := func(oracle, detail string) *Violation {
+				c.P["live"] = int64(at)
+				return &Violation{Prop: c.Prop, Oracle: oracle, Step: at, Detail: fmt.Sprintf("live index as built by the calls up to call %d of %d: %s", at, len(c.Ops), detail)}
+			}
+			fs, err := x.W.Open(OpenOpts{Drive: full, Index: lp, NoInit: true})
+			if err != nil {
+				return &Violation{Prop: c.Prop, Oracle: "harness", Detail: err.Error()}
+			}
+			var obs [2]Tree
+			var probs [2][]string
+			for pass := 0; pass < 2; pass++ {
+				if e := Reindex(fs, false, nil); e != nil {
+					fs.Close()
+					return mk(fmt.Sprintf("live-replay-pass-%d-fails", pass+1), e.Error())
+				}
+				obs[pass], probs[pass] = Observe(fs.FS, "/", ObsOpts{Extra: names})
+			}
+			fs.Close()
+			os.Remove(lp)
+			st.Evals++
+			st.Add("live_index_replays", 1)
+			if d := DiffTrees("scratch-rebuild", "replay-pass-1", scratch, obs[0], nil); len(d) > 0 {
+				return mk("live-replay-differs-from-scratch-rebuild", strings.Join(d, "; "))
+			}
+			if d := DiffTrees("replay-pass-1", "replay-pass-2", obs[0], obs[1], nil); len(d) > 0 {
+				return mk("live-second-replay-changes-state", strings.Join(d, "; "))
+			}
+			if len(probs[0]) != len(sprobs) || len(probs[1]) != len(sprobs) {
+				return mk("live-walk-problems", fmt.Sprintf("scratch=%v pass1=%v pass2=%v", sprobs, probs[0], probs[1]))
 			}
 		}
 		st.Evals--
